@@ -5,10 +5,10 @@ re-stated here under a local name; when the Live lemmas change, only the proofs 
 to be adapted.
 
 Imported DEFINITIONS (used by name elsewhere): `Live.SpecOK`, `Live.lossless`, `Live.startTasks`,
-`Live.PausedClean`, `JoinInv` (C04), `Props.C01.LiveInv`.
+`JoinInv` (C04), `Props.C01.LiveInv`.
 Imported FACTS:
   1. `ji_init`, `ji_step`        C04: a join row is never IDLE and never the subject of a re-run request
-  2. `live_init`, `live_step`    C01: the liveness invariant `LiveInv`, one step (needs `PausedClean`)
+  2. `live_init`, `live_step`    C01: the liveness invariant `LiveInv`, one step (all lossless histories since fix acd6a089)
   3. `live_proc`, `live_routes`  what is read from `LiveInv` (`Inv2.proc`, `Inv2.routes`)
   4. `not_stuck`                 C01 (`pending_of_invariants`): RUNNING ⇒ something pending
   5. `next_outs`                 fired routes are transitions of the definition (`jw_next_outs`)
@@ -28,9 +28,9 @@ theorem ji_step (sp : Spec) (w : World) (ev : Event) (h : JoinInv sp w) : JoinIn
 theorem live_init (sp : Spec) : LiveInv sp init := Mistral.Props.C01.live_inv_init sp
 
 theorem live_step (sp : Spec) (rk : String → Nat) (hsp : SpecOK sp rk) (hstart : startTasks sp ≠ [])
-    (w : World) (ev : Event) (hl : lossless ev) (hpc : PausedClean w) (h : LiveInv sp w) :
+    (w : World) (ev : Event) (hl : lossless ev) (h : LiveInv sp w) :
     LiveInv sp (step sp w ev) :=
-  Mistral.Props.C01.live_inv_step sp rk hsp hstart w ev hl hpc h
+  Mistral.Props.C01.live_inv_step sp rk hsp hstart w ev hl h
 
 /-! 3. what is read from it -/
 /-- in a RUNNING workflow every completed execution has been continued -/
